@@ -26,7 +26,9 @@ impl LintPass for GarbageInputValueCheck {
                 }
             } else if let Some(func) = node.is_function_entry_with_func() {
                 let args = func.arguments();
-                let garbage = node.live_in() - args - Register::callee_saved_set();
+                // The entry node itself kills every caller-saved register, so the registers
+                // that are read before being assigned are the ones live *after* it.
+                let garbage = node.live_out() - args - Register::callee_saved_set();
                 if !garbage.is_empty() {
                     let mut ranges = Vec::new();
                     for reg in &garbage {
